@@ -10,6 +10,7 @@ mod dump;
 mod gradual;
 mod lifecycle;
 mod modsrep;
+mod osustack;
 mod perfgrid;
 mod scoregen;
 mod session;
@@ -54,6 +55,7 @@ fn main() {
         "taiko-replay" => taiko::replay_main(rest),
         "taiko-record" => taiko::record_main(rest),
         "taikocolour-replay" => taiko::colour_replay_main(rest),
+        "stack-replay" => osustack::replay_main(rest),
         "mods-replay" => modsrep::main(rest),
         "convert-replay" => convert::replay_main(rest),
         "convert-record" => convert::record_main(rest),
